@@ -69,6 +69,7 @@ def main(argv=None):
     ap.add_argument("--jobs", type=int, default=int(os.environ.get("VERIF_JOBS", "16")))
     ap.add_argument("--no-evidence", action="store_true")
     a = ap.parse_args(argv)
+    user_only = bool(a.only)
     tier = "thorough" if a.tier.startswith("t") else "quick"
     seed = int(os.environ.get("VERIF_SEED", "0") or 0)
     t0 = time.time()
@@ -81,6 +82,10 @@ def main(argv=None):
     # the library IR is built once, before the workers start
     P.build_lib(log=lambda *x: print(*x, file=sys.stderr))
     files = sorted(set(o.path for o in obls))
+    wanted = set(o.id for o in obls)
+    if a.only:
+        wanted &= set(a.only)
+    a.only = sorted(wanted)
     results = []
     jobs = []
     os.makedirs(P.BUILD, exist_ok=True)
@@ -89,7 +94,7 @@ def main(argv=None):
             jobs.append(ex.submit(_work, (f, tier, seed, a.only, a.v)))
         for j in as_completed(jobs):
             results.extend(j.result())
-    results = [r for r in results if r.get("prop") in (a.prop, "?")]
+    results = [r for r in results if r.get("id") in wanted or r.get("prop") == "?"]
     results.sort(key=lambda r: r["id"])
     known = load_known()
     viol = []
@@ -129,7 +134,7 @@ def main(argv=None):
             print("KNOWN-FINDING: property=%s %s" % (a.prop, k["text"]))
     for r, rp in viol:
         print("VIOLATION property=%s replay=%s" % (a.prop, rp))
-    if not a.no_evidence and not a.only:
+    if not a.no_evidence and not user_only:
         write_evidence(a.prop, tier, seed, results, wall, len(viol), knownhits)
     if viol:
         return 1
